@@ -6,6 +6,7 @@ arbitrary function; `dsha` is double-SHA256 as an arbitrary function.
 import BV.C20.LemmasSer
 import BV.C20.LemmasPmtRoot
 import BV.C20.LemmasBloom
+import BV.C20.LemmasApi
 import BV.Generated.C20
 namespace BV.C20
 open Spec
@@ -197,6 +198,87 @@ theorem filter_header_chain_seq (dsha : Bytes → Bytes) (fs : List Filter) (pre
     rw [← ih]
     simp [makeHeaderForFilter, filterHeader]
 
+/-! ### GCSBuilder API, committed-filter index -/
+
+/-- `AddEntries` on a builder without error: the entry set grows by exactly the given items, stays
+    duplicate-free, and P, M, key are untouched (`AddEntry`, `AddHash`, `AddWitness` are instances). -/
+theorem builder_add_entries (b b' : Builder) (l ds : List Bytes) (he : b.err = none)
+    (hd : b.data = some l) (h : b.addEntries ds = some b') :
+    ∃ l', b'.data = some l' ∧ (∀ x, x ∈ l' ↔ x ∈ l ∨ x ∈ ds) ∧ (l.Nodup → l'.Nodup) ∧
+      b'.err = none ∧ b'.p = b.p ∧ b'.m = b.m ∧ b'.key = b.key :=
+  Lemmas.addEntries_spec ds b b' l he hd h
+
+/-- `Build()` succeeds only with no sticky error, P and M set, and is `BuildGCSFilter(p, m, key, entries)`;
+    hence the built filter matches every entry that was added. -/
+theorem builder_no_false_negative (Hk : Bytes → Bytes → Nat) (b : Builder) (l : List Bytes) (f : Filter)
+    (hd : b.data = some l) (hb : b.build Hk = .ok f) :
+    b.err = none ∧ 0 < b.p ∧ 0 < b.m ∧ BV.C20.build (Hk b.key) b.p b.m l = .ok f ∧
+    ∀ d ∈ l, f.matches (Hk b.key) d = true := by
+  obtain ⟨h1, h2, h3, h4⟩ := Lemmas.builder_build_spec Hk b l f hd hb
+  exact ⟨h1, h2, h3, h4, fun d hm => gcs_no_false_negative _ _ _ _ f h4 d hm⟩
+
+/-- the sticky errors of the setters: `SetP(p > 32)` and `SetM(m > 2^32-1)` make every later `Build` fail -/
+theorem builder_setter_limits (Hk : Bytes → Bytes → Nat) (b : Builder) (he : b.err = none) (p m : Nat) :
+    (32 < p → (b.setP p).build Hk = .error .pTooBig) ∧ (p ≤ 32 → (b.setP p).p = p ∧ (b.setP p).err = none) ∧
+    (0xffffffff < m → (b.setM m).build Hk = .error .pTooBig) ∧
+    (m ≤ 0xffffffff → (b.setM m).m = m ∧ (b.setM m).err = none) := by
+  refine ⟨?_, ?_, ?_, ?_⟩
+  · intro h; simp [Builder.setP, he, h, Builder.build]
+  · intro h; have : ¬ 32 < p := by omega
+    simp [Builder.setP, he, this]
+  · intro h; simp [Builder.setM, he, h, Builder.build]
+  · intro h; have : ¬ 0xffffffff < m := by omega
+    simp [Builder.setM, he, this]
+
+/-- `ConnectBlock` (storeFilter): on success the block's entry is the BIP158 filter, its hash, and the
+    BIP157 header chained on the previous block's stored header (32 zero bytes for a zero PrevBlock);
+    every other block's entry is untouched. It fails iff the filter cannot be built or the previous header
+    is missing. -/
+theorem cfindex_connect (Hk : Bytes → Bytes → Nat) (dsha : Bytes → Bytes) (idx idx' : CfIndex)
+    (bh prev : Bytes) (outs : List (List Bytes)) (prevs : List Bytes)
+    (h : idx.connect Hk dsha bh prev outs prevs = some idx') :
+    ∃ f ph, buildBasicFilter Hk bh outs prevs = .ok f ∧
+      ((prev = zeroHash ∧ ph = zeroHash) ∨ (prev ≠ zeroHash ∧ ∃ e, idx.lookup prev = some e ∧ ph = e.header)) ∧
+      idx'.lookup bh = some ⟨bh, f.nBytes, filterHash dsha f, filterHeader dsha (filterHash dsha f) ph⟩ ∧
+      ∀ x, x ≠ bh → idx'.lookup x = idx.lookup x := by
+  unfold CfIndex.connect at h
+  cases hf : buildBasicFilter Hk bh outs prevs with
+  | error e => rw [hf] at h; cases h
+  | ok f =>
+    rw [hf] at h
+    simp only [] at h
+    by_cases hz : prev = zeroHash
+    · have hz' : (prev == zeroHash) = true := by simp [hz]
+      rw [hz'] at h
+      simp only [if_true] at h
+      injection h with h; subst h
+      exact ⟨f, zeroHash, rfl, Or.inl ⟨hz, rfl⟩, Lemmas.lookup_cons_self _ _,
+        fun x hx => by
+          rw [CfIndex.lookup, List.find?_cons]
+          have : (bh == x) = false := by simp; exact fun e => hx e.symm
+          simp only [this]
+          exact Lemmas.lookup_filter_ne idx bh x hx⟩
+    · have hz' : (prev == zeroHash) = false := by simp [hz]
+      rw [hz'] at h
+      simp only [Bool.false_eq_true, if_false] at h
+      cases hl : idx.lookup prev with
+      | none => rw [hl] at h; cases h
+      | some e =>
+        rw [hl] at h
+        simp only [Option.map_some] at h
+        injection h with h; subst h
+        exact ⟨f, e.header, rfl, Or.inr ⟨hz, e, rfl, rfl⟩, Lemmas.lookup_cons_self _ _,
+          fun x hx => by
+            rw [CfIndex.lookup, List.find?_cons]
+            have : (bh == x) = false := by simp; exact fun e => hx e.symm
+            simp only [this]
+            exact Lemmas.lookup_filter_ne idx bh x hx⟩
+
+/-- `DisconnectBlock` removes exactly that block's three entries. -/
+theorem cfindex_disconnect (idx : CfIndex) (bh : Bytes) :
+    (idx.disconnect bh).lookup bh = none ∧ ∀ x, x ≠ bh → (idx.disconnect bh).lookup x = idx.lookup x :=
+  ⟨Lemmas.lookup_filter_self idx bh, fun x hx => Lemmas.lookup_filter_ne idx bh x hx⟩
+
 /-! ### merkle block (partial merkle tree), node hash `hh` abstract -/
 
 /-- The recursive `calcHash(height, 0)` of merkleblock.go is the Bitcoin merkle root (level-by-level
@@ -241,6 +323,24 @@ example : Pmt.DistinctSiblings (fun (a b : Nat) => a + b) 0 [7] := by
     rw [show 1 + 2 ^ h - 1 = 2 ^ h by omega, Nat.div_self hp]
   simp only [List.length_cons, List.length_nil, Nat.zero_add, this] at hw
   omega
+
+/-- The merkleblock message round-trips on the wire: `BtcDecode(BtcEncode(m) ‖ rest) = (m, rest)` for
+    every protocol version ≥ 70001 and every message within the limits (400001 hashes, 50000 flag bytes). -/
+theorem pmt_wire_roundtrip (pver : Nat) (m : PmtWire.Msg) (rest : Bytes)
+    (hp : PmtWire.BIP0037_VERSION ≤ pver) (hh : m.header.length = 80) (ht : m.transactions < 2 ^ 32)
+    (h32 : ∀ h ∈ m.hashes, h.length = 32) (hc : m.hashes.length ≤ PmtWire.MAX_TX_PER_BLOCK)
+    (hf : m.flags.length ≤ PmtWire.MAX_FLAGS) :
+    ∃ b, PmtWire.encode pver m = .ok b ∧ PmtWire.decode pver (b ++ rest) = .ok (m, rest) :=
+  Lemmas.wire_roundtrip pver m rest hp hh ht h32 hc hf
+
+/-- and is refused below protocol version 70001 and above the limits -/
+theorem pmt_wire_limits (pver : Nat) (m : PmtWire.Msg) (b : Bytes) :
+    (pver < PmtWire.BIP0037_VERSION → PmtWire.encode pver m = .error .pver ∧ PmtWire.decode pver b = .error .pver) ∧
+    (PmtWire.BIP0037_VERSION ≤ pver → PmtWire.MAX_TX_PER_BLOCK < m.hashes.length →
+      PmtWire.encode pver m = .error .tooManyHashes) := by
+  refine ⟨fun h => ⟨by simp [PmtWire.encode, h], by simp [PmtWire.decode, h]⟩, fun h1 h2 => ?_⟩
+  have : ¬ pver < PmtWire.BIP0037_VERSION := by omega
+  simp [PmtWire.encode, this, h2]
 
 /-- the index list `NewMerkleBlock` returns is the same matched set -/
 theorem pmt_matched_indices {α : Type} (hh : α → α → α) (dflt : α) (leaves : List α) (matched : List Bool) :
